@@ -143,8 +143,8 @@ PROPS["C18"] = {"level": "fault_enumeration", "conc": True, "assumptions": _A + 
 PROPS["C16"] = {"level": "exploration", "conc": True, "assumptions": _A}
 PROPS["C17"] = {"level": "exploration", "conc": True, "assumptions": _A + ["projection chains: container, Map (static), Box<dyn DynAccess>, Map of Map, AccessConvert, ArcSwapAny::map over a reference"]}
 NONTRIVIAL["C17"] = ("distinct executions in which a projection guard is dereferenced after a write", lambda evs: _has(evs, lambda e: e["e"] == "deref" and e.get("k") == "p") and _has(evs, lambda e: e["e"] == "w"))
-CONC_PLAN["quick"] += [("panic_help", 400), ("help2w", 2500), ("aba", 500), ("adv", 150), ("solo", 1500), ("solo2c", 300), ("access", 600)]
-CONC_PLAN["thorough"] += [("panic_help", 4000), ("help2w", 40000), ("aba", 5000), ("adv", 1500), ("solo", 20000), ("solo2c", 3000), ("access", 6000)]
+CONC_PLAN["quick"] += [("panic_help", 400), ("help2w", 2500), ("aba", 500), ("adv", 150), ("solo", 1500), ("solo2c", 300), ("access", 600), ("cache2", 1500)]
+CONC_PLAN["thorough"] += [("panic_help", 4000), ("help2w", 40000), ("aba", 5000), ("adv", 1500), ("solo", 20000), ("solo2c", 3000), ("access", 6000), ("cache2", 15000)]
 
 NOT_APPLICABLE = {}
 MANIFEST_TEXT = {
@@ -214,6 +214,7 @@ def mem_stage(tier, seed, key, P):
 
 
 EXTRA["C07"] = mem_stage
+EXTRA["C11"] = mem_stage
 PROPS["C07"] = {"level": "model_checking", "conc": False, "assumptions": [
     "happens-before is computed by the Mem specification (release/acquire, release sequences, fences; SeqCst = AcqRel on an interleaving) from the orderings the code actually requested, logged by the shim",
     "the instrumented pointer type follows Arc: increment Relaxed, decrement Release, Acquire fence at zero",
